@@ -2,8 +2,8 @@
 # tools/try_seed_wt.sh <dir with patch.diff> <Cxx> [tier] : like try_seed.sh but in the scratch worktree /tmp/mywt (so /repo stays free)
 d=$1; p=$2; tier=${3:-quick}; wt=${SEED_WT:-/tmp/mywt}
 [ -d $wt ] || git -C /repo worktree add -q --detach $wt HEAD
-cd $wt && git checkout -q -- . && git checkout -q --detach "$(git -C /repo rev-parse HEAD)" || exit 2
-git apply "$d/patch.diff" 2>/dev/null || git apply --3way "$d/patch.diff" >/dev/null 2>&1 || { echo "PATCH DOES NOT APPLY"; git checkout -q -- .; exit 3; }
+cd $wt && git reset -q --hard && git checkout -q --detach "$(git -C /repo rev-parse HEAD)" || exit 2
+git apply "$d/patch.diff" 2>/dev/null || git apply --3way "$d/patch.diff" >/dev/null 2>&1 || { echo "PATCH DOES NOT APPLY"; git reset -q --hard; exit 3; }
 cd /verif && VERIF_REPO=$wt ./check "$p" --tier "$tier" > /tmp/try_wt.$$.log 2>&1; rc=$?
 grep -c "^VIOLATION" /tmp/try_wt.$$.log | sed "s/^/violations: /"; grep "^VIOLATION" /tmp/try_wt.$$.log | head -2 | cut -c1-250; tail -1 /tmp/try_wt.$$.log
 rm -f /tmp/try_wt.$$.log; cd $wt && git checkout -q -- . ; git reset -q --hard; echo "exit=$rc"
